@@ -490,8 +490,12 @@ class FlowTranslator(Translator):
       (closure) or, for module functions / methods, to unknown module-level objects;
     * `continue`, `return` inside a loop of an inlined callee, recursion: untranslatable."""
 
-    def __init__(self, fdef, param_signs, assume_true=(), assume_false=(), callees=None, ret_arity=None, split=None):
+    def __init__(self, fdef, param_signs, assume_true=(), assume_false=(), callees=None, ret_arity=None, split=None, records=None):
         super().__init__(fdef, param_signs, assume_true, assume_false)
+        # records = {variable: (field names)}: a CPTensor-like object variable is modelled by one bag per component; x.<field>, x[k] read / write the component,
+        # an assignment from a tuple-like value is positional, from anything else every component receives a sub-bag of the value
+        self.records = dict(records or {})
+        self.rrecords = {}
         # split = {list variable: guard}: the list holds one array per mode; the guard `i in S` (source text) selects the DECLARED modes.  The variable is
         # modelled by two bags, X@D (arrays of declared modes) and X@U (the others); X[i] under the guard reads / writes X@D, under its negation X@U,
         # elsewhere both; cp_normalize((w, X)) is the declared-modes contract c_cpnorm_D; a returned X means X@D (the property speaks of declared modes)
@@ -533,8 +537,45 @@ class FlowTranslator(Translator):
             return "D" if self.guard_ctx[g] else "U"
         return None
 
+    def rec_fields(self, name):
+        """the component names when `name` (in the current scope) is a record variable, else None.  Configuration keys: "x" (top level) or "callee.x";
+        a parameter bound to a record argument at an inlined call is a record too"""
+        r = self.resolve(name)
+        if r in self.rrecords:
+            return self.rrecords[r]
+        for prefix, locs, closure in reversed(self.scopes):
+            if name in locs:
+                return self.records.get(prefix.split("$")[0] + "." + name)
+            if not closure:
+                return None                          # a module-level name
+        return self.records.get(name)
+
+    def rec_ids(self, name):
+        return [self.vid(self.resolve(name) + "@" + f, "all") for f in self.rec_fields(name)]
+
+    def rec_field(self, node):
+        """index of the component denoted by x.<field> or x[<int literal>] for a record variable x, else None"""
+        if isinstance(node, (ast.Attribute, ast.Subscript)) and isinstance(node.value, ast.Name):
+            fs = self.rec_fields(node.value.id)
+            if fs is None:
+                return None
+            if isinstance(node, ast.Attribute) and node.attr in fs:
+                return node.value.id, list(fs).index(node.attr)
+            if isinstance(node, ast.Subscript) and isinstance(node.slice, ast.Constant) and isinstance(node.slice.value, int) and 0 <= node.slice.value < len(fs):
+                return node.value.id, node.slice.value
+        return None
+
     def tx(self, e, cur=None, sub=None):
         sub = sub or {}
+        if self.records or self.rrecords:
+            rf = self.rec_field(e)
+            if rf is not None and rf[0] not in sub:
+                return f"(XSub (XVar {self.rec_ids(rf[0])[rf[1]]}%nat))"
+            if isinstance(e, ast.Name) and e.id not in sub and self.rec_fields(e.id) is not None:
+                r = "XNonneg"
+                for i in reversed(self.rec_ids(e.id)):
+                    r = f"(XPair (XVar {i}%nat) {r})"
+                return r
         if not self.scopes and isinstance(e, ast.Subscript) and isinstance(e.value, ast.Name) and e.value.id in self.split and e.value.id not in sub:
             d, u = self.split_ids(e.value.id)
             part = self.split_part(e)
@@ -585,13 +626,20 @@ class FlowTranslator(Translator):
         cmds = []
         # arguments are evaluated in the caller's scope
         vals = {p: self.tx(bind[p]) if p in bind else (self.tx(defaults[p]) if p in defaults else "XAny") for p in params}
+        rec_args = {p: (self.rec_fields(bind[p].id), self.rec_ids(bind[p].id)) for p in params
+                    if p in bind and isinstance(bind[p], ast.Name) and self.rec_fields(bind[p].id) is not None}
         locs = set(params) | _assigned_names(fdef)
-        arity = self.callee_arity(fdef)
-        ret_names = [f"{prefix}ret{i}" for i in range(arity)]
         self.scopes.append((prefix, locs, closure))
         self.depth += 1
+        for p, (fields, ids) in rec_args.items():
+            self.rrecords[prefix + p] = fields
+        arity = self.callee_arity(fdef)
+        ret_names = [f"{prefix}ret{i}" for i in range(arity)]
         try:
             for p in params:
+                if p in rec_args:
+                    cmds += [("assign", [i_new], f"(XVar {i_old}%nat)") for i_new, i_old in zip(self.rec_ids(p), rec_args[p][1])]
+                    continue
                 cmds.append(("assign", [self.nid(p)], vals[p]))
                 if p in bind:
                     for m in self.alias_names(bind[p]):
@@ -619,12 +667,16 @@ class FlowTranslator(Translator):
             return list(v.args[0].elts)
         if isinstance(v, ast.Call) and _dotted(v.func).split(".")[-1] in self.KNOWN_TUPLES:
             return [ast.Constant(value=c) for c in self.KNOWN_TUPLES[_dotted(v.func).split(".")[-1]]]
+        if isinstance(v, ast.Call) and isinstance(v.func, ast.Attribute) and v.func.attr == "from_CPTensor" and v.args:
+            return self.tuple_elts(v.args[0], env)          # a conversion: the components of its argument
+        if isinstance(v, ast.Name) and hasattr(self, "rrecords") and self.rec_fields(v.id) is not None:
+            return [ast.Attribute(value=ast.Name(id=v.id, ctx=ast.Load()), attr=f, ctx=ast.Load()) for f in self.rec_fields(v.id)]
         if isinstance(v, ast.Name) and env is not None and v.id in env:
             return self.tuple_elts(env[v.id], None)
         return None
 
-    # library facts (trusted): tensorly.random.random_parafac2 returns (unit weights, factors, projections): 0 stands for "entrywise >= 0", -1 for "unknown"
-    KNOWN_TUPLES = {"random_parafac2": [0, -1, -1]}
+    # library facts (trusted): tensorly.random.random_parafac2 / random_cp(normalise_factors=False) return (unit weights, factors[, projections]): 0 stands for "entrywise >= 0", -1 for "unknown"
+    KNOWN_TUPLES = {"random_parafac2": [0, -1, -1], "random_cp": [0, -1]}
 
     def callee_arity(self, fdef):
         """n when every `return` of the callee returns an n-component tuple-like value (resolved syntactically), else 1"""
@@ -678,6 +730,21 @@ class FlowTranslator(Translator):
             if comps is not None:
                 return ("seq", [self.fassign(t, sx, node) for t, (sx, node) in zip(target.elts, comps)])
             return ("seq", [self.fassign(t, f"(XSub {value_sx})", value_node) for t in target.elts])
+        if self.records or self.rrecords:
+            rf = self.rec_field(target)
+            if rf is not None:
+                return ("assign", [self.rec_ids(rf[0])[rf[1]]], value_sx)          # the component is replaced
+            if isinstance(target, ast.Name) and self.rec_fields(target.id) is not None:
+                ids = self.rec_ids(target.id)
+                el = self.tuple_elts(value_node, self.def_env) if value_node is not None else None
+                if el and len(el) == len(ids):
+                    return ("seq", [("assign", [i], self.tx(x)) for i, x in zip(ids, el)])
+                return ("assign", ids, f"(XSub {value_sx})")
+            b = target
+            while isinstance(b, (ast.Subscript, ast.Attribute)):
+                b = b.value
+            if isinstance(b, ast.Name) and self.rec_fields(b.id) is not None and isinstance(target, (ast.Subscript, ast.Attribute)):
+                return ("seq", [("aupdate_id", i, value_sx) for i in self.rec_ids(b.id)])
         if not self.scopes and isinstance(target, ast.Subscript) and isinstance(target.value, ast.Name) and target.value.id in self.split:
             d, u = self.split_ids(target.value.id)
             part = self.split_part(target)
@@ -1019,6 +1086,8 @@ class FlowTranslator(Translator):
             i = self.vars[(name, ver)]
             if name in self.params:
                 a0.append(self.param_signs.get(name, "SgAny"))
+            elif "@" in name and name.split("@")[0] in self.params and name.split("@")[1] in (self.records.get(name.split("@")[0]) or ()):
+                a0.append(self.param_signs.get(name, "SgAny"))       # a component of a record parameter
             elif i not in assigned:
                 a0.append("SgAny")                 # a module-level name / never assigned: nothing is known
             else:
@@ -1037,10 +1106,10 @@ def find_function(tree, fname, cls=None):
     raise Untranslatable(f"function {fname} not found")
 
 
-def translate_flow(source, fname, param_signs, assume_true=(), assume_false=(), callees=None, split=None):
+def translate_flow(source, fname, param_signs, assume_true=(), assume_false=(), callees=None, split=None, records=None):
     """callees: {call name: (source text, function name, class name or None)} -> inlined"""
     tree = ast.parse(source)
     cs = {}
     for k, (src, fn, cls) in (callees or {}).items():
         cs[k] = (find_function(ast.parse(src), fn, cls), False)
-    return FlowTranslator(find_function(tree, fname), param_signs, assume_true, assume_false, cs, split=split).run()
+    return FlowTranslator(find_function(tree, fname), param_signs, assume_true, assume_false, cs, split=split, records=records).run()
